@@ -8,6 +8,7 @@ import (
 	"fmt"
 	"io"
 	"os"
+	"os/exec"
 	"path/filepath"
 	"reflect"
 	"runtime"
@@ -171,13 +172,16 @@ func c18Callback(text string) []c18Event {
 // that looks something up in another file between two receives, a second stream delivered by a second Parser, a
 // goroutine that parses on its own). Every parse, the one under test and the neighbours, must see its own stream only.
 func checkC18(c c18Case, ctx *vCtx) *vFailure {
-	if c.Neighbour == 0 || c.Input == "huge" || c.Input == "merge" {
+	if c.Neighbour == 0 || c.Input == "huge" || c.Input == "merge" || c.Input == "otheruser" {
 		c18Between = nil
 		if c.Input == "huge" {
 			return checkC18Huge(c, ctx)
 		}
 		if c.Input == "merge" {
 			return checkC18Merge(c, ctx)
+		}
+		if c.Input == "otheruser" {
+			return checkC18OtherUser(c, ctx)
 		}
 		return checkC18One(c, ctx)
 	}
@@ -939,6 +943,105 @@ func checkC18Merge(c c18Case, ctx *vCtx) *vFailure {
 	return nil
 }
 
+// c18.otheruser: both parsers in a process that is not the owner of the file (and not root): a helper run of this test
+// binary under an unused user id parses a world-readable file that belongs to root and prints what each parser reported.
+
+func TestVerifC18HelperOtherUser(t *testing.T) {
+	path := os.Getenv("VERIF_C18_HELPER_FILE")
+	if path == "" {
+		t.Skip("helper of c18.otheruser")
+	}
+	var cb []c18Event
+	err := parser.ParseFileCallback(path, parser.NewDefaultConfig(), func(n *shared.ParserNode, e error) (bool, error) {
+		if e != nil {
+			return true, e
+		}
+		cb = append(cb, c18Event{Kind: "node", Rec: vGotFromNode(n)})
+		return false, nil
+	})
+	if err != nil {
+		cb = append(cb, c18Event{Kind: "error", Err: err.Error()})
+	} else {
+		cb = append(cb, c18Event{Kind: "done"})
+	}
+	p := parser.NewParser(parser.NewDefaultConfig())
+	go p.ParseFile(path)
+	var ch []c18Event
+	for fin := false; !fin; {
+		select {
+		case n := <-p.Nodes:
+			ch = append(ch, c18Event{Kind: "node", Rec: vGotFromNode(n)})
+		case e := <-p.Errors:
+			ch = append(ch, c18Event{Kind: "error", Err: e.Error()})
+		case <-p.Done:
+			ch = append(ch, c18Event{Kind: "done"})
+			fin = true
+		case <-time.After(20 * time.Second):
+			ch = append(ch, c18Event{Kind: "error", Err: "nothing arrives for 20 s"})
+			fin = true
+		}
+	}
+	fmt.Printf("C18HELPER uid=%d callback=%s\nC18HELPER uid=%d channel=%s\n", os.Getuid(), c18Fmt(cb), os.Getuid(), c18Fmt(ch))
+}
+
+func checkC18OtherUser(c c18Case, ctx *vCtx) *vFailure {
+	ctx.NonTrivial(true)
+	ctx.Run(1)
+	dir, err := os.MkdirTemp("", "verif-c18-otheruser-")
+	if err != nil {
+		vFault("mkdtemp: %v", err)
+	}
+	defer os.RemoveAll(dir)
+	_ = os.Chmod(dir, 0o755)
+	file := filepath.Join(dir, "journal.yaml")
+	if err := os.WriteFile(file, []byte("first day:\n  a: 1\n  # note\nsecond day:\n  b: 2\n"), 0o644); err != nil {
+		vFault("write: %v", err)
+	}
+	self, err := os.ReadFile(os.Args[0])
+	if err != nil {
+		vFault("read test binary: %v", err)
+	}
+	tb := filepath.Join(dir, "tb")
+	if err := os.WriteFile(tb, self, 0o755); err != nil {
+		vFault("copy test binary: %v", err)
+	}
+	cmd := exec.Command(tb, "-test.run", "^TestVerifC18HelperOtherUser$", "-test.v")
+	cmd.Dir = dir
+	cmd.Env = []string{"PATH=/usr/bin:/bin", "HOME=" + dir, "TZ=UTC", "VERIF_C18_HELPER_FILE=" + file, "VERIF_OUT=" + dir, "VERIF_PROPERTY=C18"}
+	cmd.SysProcAttr = &syscall.SysProcAttr{Credential: &syscall.Credential{Uid: uint32(c.Warmup), Gid: uint32(c.Warmup)}}
+	out, rerr := cmd.CombinedOutput()
+	var cb, ch string
+	for _, ln := range strings.Split(string(out), "\n") {
+		if i := strings.Index(ln, " callback="); strings.HasPrefix(ln, "C18HELPER") && i > 0 {
+			cb = ln[i+len(" callback="):]
+		}
+		if i := strings.Index(ln, " channel="); strings.HasPrefix(ln, "C18HELPER") && i > 0 {
+			ch = ln[i+len(" channel="):]
+		}
+	}
+	if cb == "" || ch == "" {
+		vFault("C18 otheruser: the helper under uid %d gave no result (%v): %s", c.Warmup, rerr, vTrunc(string(out), 600))
+	}
+	ctx.Labelf("uid=%d", c.Warmup)
+	if cb != ch {
+		return vFailf("in a process of user id %d (not the owner of the world-readable file, not root) the channel parser delivers %s, the callback parser reports %s", c.Warmup, ch, cb)
+	}
+	if !strings.Contains(cb, "second day") {
+		return vFailf("in a process of user id %d the callback parser reports %s for a world-readable file of two records", c.Warmup, cb)
+	}
+	return nil
+}
+
+func TestVerifC18OtherUser(t *testing.T) {
+	if os.Getuid() != 0 {
+		t.Skip("needs root to start a process under another user id")
+	}
+	space := []c18Case{{Input: "otheruser", Policy: "drain", Procs: 2, Warmup: 54321}}
+	vEnum(t, "C18", "c18.otheruser",
+		"both parsers in a helper process under an unused user id (54321) on a world-readable file that belongs to root: the channel parser must deliver what the callback parser reports",
+		"1 case", len(space), func(i int) c18Case { return space[i] }, checkC18)
+}
+
 func TestVerifC18Merge(t *testing.T) {
 	ks := []int{2, 8, 9, 17, 70}
 	if vThorough() {
@@ -966,6 +1069,7 @@ func TestVerifC18Huge(t *testing.T) {
 func init() {
 	vRegister("C18", "c18.huge", checkC18)
 	vRegister("C18", "c18.merge", checkC18)
+	vRegister("C18", "c18.otheruser", checkC18)
 	vRegister("C18", "c18.schedules", checkC18)
 	vRegister("C18", "c18.slowfifo", checkC18)
 }
